@@ -329,7 +329,9 @@ def check_history(i, tier):
             p.Quotient(nested, p.Sum((n2, 3))),
             # the same subexpression under wrappers that are not equal to u: other prefix, no prefix, other scope
             p.Sum((CSE(p.Sum((x, y)), "other"), u)), p.Product((CSE(p.Sum((x, y))), 2)),
-            p.Sum((CSE(p.Sum((x, y)), "u", p.cse_scope.GLOBAL), 1))]
+            p.Sum((CSE(p.Sum((x, y)), "u", p.cse_scope.GLOBAL), 1)),
+            # a prefix whose generated name is already taken by a caller-supplied mapped name
+            p.Sum((CSE(p.Product((y, z)), "extern"), 1))]
     ops = ["map", "copy", "copy_mapped"]
     seqs = list(itertools.product(range(len(pool)), repeat=3))[i::6]
     for seq in seqs:
@@ -343,7 +345,10 @@ def check_history(i, tier):
                     if op_ == "copy":
                         cur = cur.copy()
                     elif op_ == "copy_mapped":
-                        cur = cur.copy_with_mapped_cses([("_cse_extern", "x*17")])
+                        # the caller supplies a name for an externally computed value; it must not be in use already
+                        taken = {n for n, _ in cur.cse_name_list}
+                        ext = "_cse_extern" if "_cse_extern" not in taken else "_cse_outside"
+                        cur = cur.copy_with_mapped_cses([(ext, "x*17")])
                     elif op_ == "orig":
                         cur = m0
                     txt = cur(pool[e_i])
@@ -356,7 +361,7 @@ def check_history(i, tier):
                 if len(set(names)) != len(names):
                     _hv(res, seq, plan, f"hoisted names not unique: {names}")
                     break
-                texts = [s for n, s in nl if n != "_cse_extern"]
+                texts = [s for n, s in nl if n not in ("_cse_extern", "_cse_outside") or s != "x*17"]
                 if len(set(texts)) != len(texts):
                     _hv(res, seq, plan, f"a wrapped subexpression is assigned more than once: {nl}")
                     break
